@@ -28,10 +28,11 @@ RULE = ('three families. (1) small generated uamiv files (1-2 species, 1-2 layer
         'the Memmap reader against the Lean reader model on the prefix and the same oracle. (3) bpch (bpch1): every '
         'block boundary +-{0..4} bytes and random offsets; oracle: leading steps identical to the full file, or - for a '
         'cut at a block boundary inside the first step, where the prefix is itself a valid file with fewer tracers - '
-        'identical data of the tracers present; non-trivial = cut inside the time-step region')
+        'identical data of the tracers present. (4) wind (Memmap reader): cuts around every step boundary and random offsets, '
+        'oracle as above plus "returns within 5 s"; non-trivial = cut inside the time-step region')
 ASSUMPTIONS = ['numpy.memmap raises when offset+shape exceeds the file (modelled as error)',
                'the theorems (prefix_safe, odd_cut_raises) are about the uamiv reader model; slab formats are tied by the '
-               'correspondence with the Lean reader model, bpch by the oracle only; lateral_boundary, wind, cloud_rain are not in this check']
+               'correspondence with the Lean reader model, bpch and wind by the oracle only; lateral_boundary and cloud_rain are not in this check']
 MIN_NONTRIVIAL = {'quick': 40, 'thorough': 400}
 NPROC = {'quick': 1, 'thorough': 12}
 
@@ -95,6 +96,20 @@ def gen(rng, tier):
             cuts |= {rng.randrange(size) for _ in range(30)}
         for n in sorted(cuts):
             out.append(dict(family='slab', spec=c, cut=n))
+    # wind (oracle only; a reader that does not return within 5 s is reported)
+    for fi in range(1 if tier == 'quick' else 4):
+        c = S.gen_wind(rng)
+        c['nx'], c['ny'] = 2, 2
+        c['data'] = [[sl[:4] for sl in slabs] for slabs in c['data']]
+        size = len(S.wind_encode(c))
+        per = (8 if c['stag'] is None else 12) + 8 + 2 * c['nz'] * 24 + 12
+        if tier == 'thorough':
+            cuts = range(size)
+        else:
+            cuts = {t * per + d for t in range(len(c['flags']) + 1) for d in range(-4, 48) if 0 <= t * per + d < size}
+            cuts |= {rng.randrange(size) for _ in range(40)}
+        for n in sorted(cuts):
+            out.append(dict(family='wind', spec=c, cut=n))
     # bpch
     for fi in range(2 if tier == 'quick' else 8):
         c = B.gen(rng)
@@ -137,6 +152,37 @@ def _slab_read(spec, b):
         os.remove(p)
 
 
+class _Timeout(Exception):
+    pass
+
+
+def _wind_read(spec, b):
+    import signal
+
+    def handler(*a):
+        raise _Timeout()
+    p = os.path.join(camx.tmpdir(), 'c14w_%d_%d.bin' % (os.getpid(), np.random.randint(1 << 30)))
+    open(p, 'wb').write(b)
+    old = signal.signal(signal.SIGALRM, handler)
+    signal.alarm(5)
+    try:
+        return S.wind_view(S.wind_open(spec, p, 'memmap'), spec)
+    except _Timeout:
+        return dict(hang=True)
+    finally:
+        signal.alarm(0)
+        signal.signal(signal.SIGALRM, old)
+        os.remove(p)
+
+
+def _wind_full(spec):
+    key = 'wind' + json.dumps(spec, sort_keys=True)
+    if key not in _CACHE:
+        b = S.wind_encode(spec)
+        _CACHE[key] = (b, _wind_read(spec, b))
+    return _CACHE[key]
+
+
 def _bpch_read(spec, b):
     from PseudoNetCDF.geoschemfiles._bpch import bpch1
     from . import c18
@@ -163,10 +209,10 @@ def impl(case):
     fam = case.get('family', 'uamiv')
     if fam != 'uamiv':
         with lib.pnc_warnings():
-            b, full = (_slab_full if fam == 'slab' else _bpch_full)(case['spec'])
+            b, full = {'slab': _slab_full, 'bpch': _bpch_full, 'wind': _wind_full}[fam](case['spec'])
             p = b[:case['cut']]
             try:
-                v = (_slab_read if fam == 'slab' else _bpch_read)(case['spec'], p)
+                v = {'slab': _slab_read, 'bpch': _bpch_read, 'wind': _wind_read}[fam](case['spec'], p)
                 return dict(view=v, hex=p.hex())
             except lib.HarnessError:
                 raise
@@ -190,8 +236,8 @@ def to_line(case, res):
         n = len(h) // 8
         c = case['spec']
         return 'bin slab-mm %s %d %s' % (S.FORMATS[c['fmt']][0], c['nx'] * c['ny'], h[:8 * n] or '-')
-    if fam == 'bpch':
-        return 'bin slab-mm one3d 1 -'          # no model question for bpch prefixes (oracle only)
+    if fam in ('bpch', 'wind'):
+        return 'bin slab-mm one3d 1 -'          # no model question for bpch / wind prefixes (oracle only)
     h = res['hex']
     n = len(h) // 8
     return 'bin uamiv-read %s %d' % (h[:8 * n] or '-', (len(h) // 2) % 4)
@@ -199,7 +245,7 @@ def to_line(case, res):
 
 def agree(case, out, res):
     fam = case.get('family', 'uamiv')
-    if fam == 'bpch':
+    if fam in ('bpch', 'wind'):
         return None
     if fam == 'slab':
         if len(res['hex']) % 8 != 0:
@@ -242,6 +288,24 @@ def _oracle_slab(case, res):
     return None
 
 
+def _oracle_wind(case, res):
+    b, full = _wind_full(case['spec'])
+    v = res['view']
+    if v.get('hang'):
+        return 'the reader did not return within 5 s on a prefix of %d bytes' % case['cut']
+    nt = len(case['spec']['flags'])
+    k = int(v['nt'])
+    if v['nz'] != full['nz'] or k > nt:
+        return 'prefix of %d bytes presents nt=%s nz=%s' % (case['cut'], v['nt'], v['nz'])
+    for name in ('U', 'V'):
+        per = len(full['vars'][name]) // nt
+        if v['vars'][name] != full['vars'][name][:per * k]:
+            return 'prefix of %d bytes presents %s data that differ from the first %d steps' % (case['cut'], name, k)
+    if v.get('tflag') != full['tflag'][:k]:
+        return 'prefix presents time flags %s, the full file %s' % (v.get('tflag'), full['tflag'])
+    return None
+
+
 def _oracle_bpch(case, res):
     b, full = _bpch_full(case['spec'])
     v = res['view']
@@ -266,6 +330,8 @@ def oracle(case, res):
         return _oracle_slab(case, res)
     if fam == 'bpch':
         return _oracle_bpch(case, res)
+    if fam == 'wind':
+        return _oracle_wind(case, res)
     b, full = _file_bytes(case['spec'])
     v = res['view']
     if 'inconsistent' in v:
